@@ -50,14 +50,15 @@ func Harness_C01_flow_through_transport() {
 	variant := verifPick("variant", 0, 1)
 	split := verifPick("split", 0, 1)
 	sinkForm := verifPick("sink-form", 0, 1)
+	stringData := verifPick("string-data", 0, 1) == 1
 	fieldSensitive := false
 	onDemand := false
 	if verifTier() > 0 {
 		fieldSensitive = verifPick("field-sensitive", 0, 1) == 1
 		onDemand = verifPick("on-demand", 0, 1) == 1
 	}
-	w := df.VerifBuildDirectFlow([]int{t}, []int{variant}, split, sinkForm)
-	verifAssert("explicit-source-to-sink-flow-is-reported", c01ProgReported(w, c01ProgConfig(fieldSensitive, onDemand)))
+	w := df.VerifBuildDirectFlow([]int{t}, []int{variant}, split, sinkForm, stringData)
+	verifAssertKnown("explicit-source-to-sink-flow-is-reported", "KF-C01-global-address-copy", false, c01ProgReported(w, c01ProgConfig(fieldSensitive, onDemand)))
 }
 
 // C05 on whole programs: the reported (source, sink) pairs of the whole pipeline are the same with
@@ -71,8 +72,9 @@ func Harness_C05_on_demand_whole_pipeline() {
 	if verifTier() > 0 {
 		sinkForm = verifPick("sink-form", 0, 1)
 	}
-	eager := c01ProgReported(df.VerifBuildDirectFlow([]int{t}, []int{variant}, 0, sinkForm), c01ProgConfig(false, false))
-	onDemand := c01ProgReported(df.VerifBuildDirectFlow([]int{t}, []int{variant}, 0, sinkForm), c01ProgConfig(false, true))
+	stringData := verifPick("string-data", 0, 1) == 1
+	eager := c01ProgReported(df.VerifBuildDirectFlow([]int{t}, []int{variant}, 0, sinkForm, stringData), c01ProgConfig(false, false))
+	onDemand := c01ProgReported(df.VerifBuildDirectFlow([]int{t}, []int{variant}, 0, sinkForm, stringData), c01ProgConfig(false, true))
 	verifAssert("same-verdict-with-summarize-on-demand-on-and-off", eager == onDemand)
 	verifAssert("flow-reported-with-summarize-on-demand", onDemand)
 }
@@ -80,9 +82,11 @@ func Harness_C05_on_demand_whole_pipeline() {
 // control (vacuity witness for the assertions above): when the sink receives a value that never holds the source's
 // data, the pipeline is able to report nothing - "reported" is not the only verdict it produces on this family
 func Harness_C01_no_flow_control() {
-	w := df.VerifBuildDirectFlow([]int{0}, []int{0}, 1, 2)
+	stringData := verifPick("string-data", 0, 1) == 1
+	w := df.VerifBuildDirectFlow([]int{0}, []int{0}, 1, 2, stringData)
 	if !c01ProgReported(w, c01ProgConfig(false, false)) {
 		verifReach("no-flow-is-not-reported")
 	}
 	verifReach("control-done")
 }
+
